@@ -60,7 +60,8 @@ DataType: TypeAlias = t.Union[str, bytes, int, bool, float, complex, None, t.Map
 
 _ScalarType = (str, bytes, int, bool, float, complex, type(None))  # type: ignore
 """Scalar [`DataType`][pane.convert.DataType]s for use in [`isinstance`][isinstance] checks."""
-_DataType = (*_ScalarType, t.Mapping, t.Sequence, numpy.ndarray)  # type: ignore
+# YAML loaders hand over date/time objects (a document `2020-01-02`); `DatetimeConverter` accepts them at any depth
+_DataType = (*_ScalarType, t.Mapping, t.Sequence, numpy.ndarray, datetime.date, datetime.time)  # type: ignore
 """[`DataType`][pane.convert.DataType] for use in [`isinstance`][isinstance] checks."""
 
 Convertible: TypeAlias = t.Union[
